@@ -458,6 +458,113 @@ func runRaceChild(bin, dir string, c matchCase, gomaxprocs int) (string, error) 
 	return string(out), err
 }
 
+// ---- many pairs that only a unique identifier holds together, on cold caches -----------------
+
+type uidCase struct {
+	Pairs  int   `json:"pairs"`
+	Jobs   int   `json:"jobs"`
+	Rounds int   `json:"rounds"`
+	Salt   int   `json:"salt"`
+	Extra  []int `json:"extra,omitempty"` // how many people without a partner on each side
+}
+
+// uidDocs builds two documents of n people each: L_i and R_i share a _UID and nothing else
+// (other names, other dates 200 years apart, other pointers), so only the unique identifier
+// can pair them and no similarity ever reaches the threshold.
+func uidDocs(c uidCase) (string, string) {
+	var l, r strings.Builder
+	given := []string{"Aaron", "Bertha", "Conrad", "Dorothea", "Egbert", "Friederike", "Gustav", "Hildegard"}
+	sur := []string{"Quist", "Zimmer", "Oldcastle", "Vanterpool", "Ixworth", "Yarrow", "Umberfield", "Wexcombe"}
+	for i := 0; i < c.Pairs; i++ {
+		uid := fmt.Sprintf("%032X", uint64(c.Salt)*1000003+uint64(i)*7919+17)
+		fmt.Fprintf(&l, "0 @L%d@ INDI\n1 NAME %s%d /%s/\n1 BIRT\n2 DATE %d\n1 _UID %s\n", i, given[i%8], i, sur[(i/8)%8], 1600+i, uid)
+		fmt.Fprintf(&r, "0 @R%d@ INDI\n1 NAME %s%d /%s/\n1 BIRT\n2 DATE %d\n1 _UID %s\n", i, given[(i+3)%8], i+500, sur[(i/8+5)%8], 1850+i, uid)
+	}
+	for k, n := range c.Extra {
+		for j := 0; j < n; j++ {
+			w := []*strings.Builder{&l, &r}[k%2]
+			fmt.Fprintf(w, "0 @X%d_%d@ INDI\n1 NAME Solo%d /Nobody%d/\n1 BIRT\n2 DATE %d\n", k, j, j, k, 1300+10*j+k)
+		}
+	}
+	return l.String(), r.String()
+}
+
+func checkUID(c uidCase) *harness.Failure {
+	lt, rtx := uidDocs(c)
+	for round := 0; round < c.Rounds; round++ {
+		// fresh documents every round: every lazily filled cache is cold
+		ld, err1 := gedcom.NewDocumentFromString(lt)
+		rd, err2 := gedcom.NewDocumentFromString(rtx)
+		if err1 != nil || err2 != nil {
+			return harness.Failf("generator-text-rejected", "%v %v", err1, err2)
+		}
+		o := gedcom.NewIndividualNodesCompareOptions()
+		o.Jobs = c.Jobs
+		res := ld.Individuals().Compare(rd.Individuals(), o)
+		paired := map[string]string{}
+		seen := map[string]int{}
+		for _, r := range res {
+			if r.Left != nil {
+				seen[r.Left.Pointer()]++
+			}
+			if r.Right != nil {
+				seen[r.Right.Pointer()]++
+			}
+			if r.Left != nil && r.Right != nil {
+				paired[r.Left.Pointer()] = r.Right.Pointer()
+			}
+		}
+		for _, d := range []*gedcom.Document{ld, rd} {
+			for _, ind := range d.Individuals() {
+				if seen[ind.Pointer()] != 1 {
+					return harness.Failf("not-exactly-once", "round %d, jobs=%d: %s appears in %d results", round, c.Jobs, ind.Pointer(), seen[ind.Pointer()])
+				}
+			}
+		}
+		for i := 0; i < c.Pairs; i++ {
+			if got, want := paired[fmt.Sprintf("L%d", i)], fmt.Sprintf("R%d", i); got != want {
+				return harness.Failf("shared-identifier-not-paired", "round %d, jobs=%d: L%d and R%d share a unique identifier (and nothing else), the sequential run pairs them, this run pairs L%d with %q (%d pairs of %d people)", round, c.Jobs, i, i, i, got, len(paired), c.Pairs)
+			}
+		}
+		for l, r := range paired {
+			// (people without a partner may be paired with each other by similarity; the people
+			// who carry an identifier may only be paired through it)
+			if (l[0] == 'L') != (r[0] == 'R') || (l[0] == 'L' && l[1:] != r[1:]) {
+				return harness.Failf("pair-without-evidence", "round %d, jobs=%d: %s is paired with %s: no shared identifier, no shared pointer, and nothing similar", round, c.Jobs, l, r)
+			}
+		}
+	}
+	return nil
+}
+
+func TestCheckUIDPairs(t *testing.T) {
+	s := harness.NewSub("identifier-pairs-on-cold-caches",
+		"two documents of 20..60 people each in which L_i and R_i share a _UID and nothing else (other names, dates two centuries apart, other pointers), plus 0..5 people without a partner on either side; decoded afresh for every round (cold caches), compared with Jobs in {1,2,3,8,16} for 3..8 rounds; oracle by construction: every individual in exactly one result, and the two-sided results are exactly the pairs (L_i, R_i) - what the sequential run gives, no similarity reaches the threshold, so nothing ties; non-trivial = Jobs > 1")
+	s.Rapid(t, harness.Share(harness.Pick(160, 6000)), 114, func(rt *rapid.T) {
+		c := uidCase{Pairs: rapid.IntRange(20, 60).Draw(rt, "pairs"), Jobs: rapid.SampledFrom([]int{1, 2, 2, 3, 8, 8, 16}).Draw(rt, "jobs"),
+			Rounds: rapid.IntRange(3, harness.Pick(8, 20)).Draw(rt, "rounds"), Salt: rapid.IntRange(1, 1000).Draw(rt, "salt"),
+			Extra: []int{rapid.IntRange(0, 5).Draw(rt, "extraL"), rapid.IntRange(0, 5).Draw(rt, "extraR")}}
+		s.Eval(harness.JSON(c), c.Jobs > 1, fmt.Sprintf("jobs=%d", c.Jobs))
+		if c.Jobs > 1 {
+			s.MaybeSample(c)
+		}
+		if fl := checkUID(c); fl != nil && s.Report(c, fl) {
+			rt.Fatalf("%s: %s", fl.Sig, fl.Msg)
+		}
+	})
+}
+
+func init() {
+	harness.RegisterReplay("identifier-pairs-on-cold-caches", func(raw json.RawMessage) *harness.Failure {
+		var c uidCase
+		if err := json.Unmarshal(raw, &c); err != nil {
+			return harness.Failf("bad-replay", "%v", err)
+		}
+		c.Rounds *= 5 // schedule-dependent: a replay tries harder
+		return checkUID(c)
+	})
+}
+
 func TestCheckRace(t *testing.T) {
 	bin := os.Getenv("VERIF_RACE_BIN")
 	if bin == "" {
